@@ -30,7 +30,18 @@ def run(tier):
     # besides the random cases: one generator instance emitting > 2^16 pipelines (identity only; in the thorough tier also with every draw)
     lines = driver_gen.gen_lines(N[tier], common.seed() + 15, n_ids=1 if tier == "quick" else 6, n_marathon=0 if tier == "quick" else 3)
     mon = _validate(lines, rep)
-    rep.traces, rep.evaluations = mon.traces, mon.counters.get("pipelines", 0)
+    # ... and the generator as run_simulator builds it from a parameter set (keys in any order, probability triples with zeros and ones)
+    from .. import driver_sim
+    sims = driver_sim.gen_traces(96 if tier == "quick" else 2400, common.seed() + 1515, frac_uncontended=0.0)
+    smon = common.run_monitor("TraceSim", "TraceSim.cfg", common.write_shards(sims, common.NCPU, "gensim"))
+    by_tid = {tr[0]["tid"]: tr for tr in sims}
+    for v in smon.viols:
+        if str(v[2]).startswith("C15."):
+            meta = (by_tid.get(v[0], [{}])[0].get("meta")) or {}
+            rep.violation(v[2], {"tid": v[0], "detail": v[3] if len(v) > 3 else None, "seed": meta.get("seed"), "params": meta.get("params")},
+                          replay={"kind": "gen:sim", "seed": meta.get("seed")}, sig={"clause": v[2]})
+    rep.extra["simulations_with_probability_clauses"] = smon.counters.get("runs_with_probabilities", 0)
+    rep.traces, rep.evaluations = mon.traces + smon.traces, mon.counters.get("pipelines", 0)
     rep.extra["situations"] = mon.counters
     rep.nontrivial = sum(1 for ln in lines if ln[0].get("kind") == "pair" or len(ln) >= 4)
     rep.rule = ("WorkloadGenerator run tick by tick for random parameter sets (probability triples incl. zeros, num_pipelines, num_operators, waiting mean from below one "
@@ -52,6 +63,13 @@ def replay(path):
     rp = payload.get("replay") or {}
     rep = Report("C15", "quick")
     common.import_repo()
+    if rp.get("kind") == "gen:sim":
+        from .. import driver_sim
+        smon = common.run_monitor("TraceSim", "TraceSim.cfg", common.write_shards([driver_sim.run_random(rp["seed"], 0)], 1, "gensim"))
+        bad = [v for v in smon.viols if str(v[2]).startswith("C15.")]
+        for v in bad[:10]:
+            print("  ", json.dumps(v)[:300])
+        return 1 if bad else 0
     f = {"gen:pair": driver_gen.pair_case, "gen:idhdr": driver_gen.ids_case}.get(rp.get("kind"), driver_gen.run_case)
     res = f(rp["seed"], 0, marathon=True) if payload.get("detail", {}).get("marathon") else f(rp["seed"], 0)
     mon = _validate([res if isinstance(res, list) else [res]], rep)
